@@ -2230,6 +2230,11 @@ static struct uref *upipe_h265f_prepare_annexb(struct upipe *upipe)
         upipe_throw_fatal(upipe, UBASE_ERR_ALLOC);
         return NULL;
     }
+    /* The access unit is a duplicate of the input buffer: NAL offsets beyond
+     * its own were left there by earlier access units of the same buffer. */
+    uint64_t nal_units = upipe_h265f->au_nal_units;
+    while (ubase_check(uref_h26x_delete_nal_offset(uref, nal_units)))
+        nal_units++;
     upipe_h265f->au_nal_units = 0;
 
     int err = upipe_h265f_prepare_au(upipe, uref);
